@@ -269,6 +269,46 @@ def variations(ctx, rr):
                 n_anchor += 1
                 rr.ob(ctx.where(hv, t), 'scheme test `%s` is anchored at the start of the LRU' % ast.unparse(t), ok=True)
     rr.require(n_anchor, 2, 'scheme tests/rewrites in https_variation')
+    # the scheme test names a whole stem (separator included) and the rewrite cuts exactly what the test matched
+    from ..consts import const_env as _cenv
+    CE_ = _cenv(ctx)
+
+    def _fold(e):
+        try:
+            return CE_.ev(hv.module, e)
+        except Exception:
+            return None
+    for t in ast.walk(hv.node):
+        if not (isinstance(t, ast.Call) and isinstance(t.func, ast.Attribute) and isinstance(t.func.value, ast.Name) and t.func.value.id == p and t.func.attr == 'startswith'
+                and len(t.args) == 1):
+            continue
+        needle = _fold(t.args[0])
+        if not isinstance(needle, (bytes, str)):
+            continue
+        sep = b'|' if isinstance(needle, bytes) else '|'
+        okn = needle.endswith(sep)
+        rr.ob(ctx.where(hv, t), 'scheme test `%s` names a whole stem (closing separator included)' % ast.unparse(t)[:50], ok=okn)
+        if not okn:
+            rr.fail(ctx.finding('R-VARIATIONS', hv, t, 'scheme test `%s` has no closing separator: every scheme that merely begins with this text (s:httpx|, ...) is taken for it and gets a '
+                                'mangled twin, so expansion changes more than the scheme stem and the class is not closed' % ast.unparse(t)[:60]))
+        # the return guarded by this test cuts len(needle) bytes
+        par_ = P.parent.get(id(t))
+        while par_ is not None and not isinstance(par_, ast.If):
+            par_ = P.parent.get(id(par_))
+        if par_ is None or not any(x is t for x in ast.walk(par_.test)):
+            continue
+        for r_ in [x for st_ in par_.body for x in ast.walk(st_) if isinstance(x, ast.Return) and x.value is not None]:
+            for sl in ast.walk(r_.value):
+                if isinstance(sl, ast.Subscript) and isinstance(sl.value, ast.Name) and sl.value.id == p and isinstance(sl.slice, ast.Slice) and sl.slice.lower is not None \
+                        and sl.slice.upper is None:
+                    k_ = _fold(sl.slice.lower)
+                    if not isinstance(k_, int):
+                        continue
+                    okc = k_ == len(needle)
+                    rr.ob(ctx.where(hv, sl), 'the rewrite under `%s` cuts exactly the %d bytes the test matched' % (ast.unparse(t)[:40], len(needle)), ok=okc)
+                    if not okc:
+                        rr.fail(ctx.finding('R-VARIATIONS', hv, sl, 'under `%s` (%d bytes matched) the rewrite cuts %d bytes: the twin loses or keeps a byte of the scheme stem, which is not the '
+                                            'http(s) twin of the LRU' % (ast.unparse(t)[:40], len(needle), k_)))
     # the www test / removal concerns the last host stem only
     host_lists = set()
     for a in P.own(lv, ast.Assign):
@@ -299,6 +339,13 @@ def variations(ctx, rr):
             n_www += 1
             rr.ob(ctx.where(lv, t), 'www removal `%s` concerns the last host stem only' % ast.unparse(t), ok=False)
             rr.fail(ctx.finding('R-VARIATIONS', lv, t, '`%s` removes/locates the first matching host stem instead of the trailing one' % ast.unparse(t)))
+        if isinstance(t, ast.Compare) and isinstance(t.left, ast.Call) and isinstance(t.left.func, ast.Attribute) and isinstance(t.left.func.value, ast.Subscript) \
+                and isinstance(t.left.func.value.value, ast.Name) and t.left.func.value.value.id in host_lists \
+                and t.left.func.attr in ('lower', 'upper', 'casefold', 'title', 'strip', 'lstrip', 'rstrip', 'swapcase', 'capitalize'):
+            n_www += 1
+            rr.ob(ctx.where(lv, t), 'www test `%s` compares the stored stem itself' % ast.unparse(t), ok=False)
+            rr.fail(ctx.finding('R-VARIATIONS', lv, t, 'the www test compares a normalised copy of the last host stem (`.%s()`): a stem the other direction never writes (h:WWW, ...) is '
+                                'removed, and expanding the result again appends lower-case h:www, so the class is not closed' % t.left.func.attr))
         if isinstance(t, ast.Compare) and isinstance(t.left, ast.Subscript) and isinstance(t.left.value, ast.Name) and t.left.value.id in host_lists:
             n_www += 1
             idx = ast.unparse(t.left.slice)
